@@ -9,11 +9,17 @@ for r in det:
     meta = json.load(open(os.path.join(md, 'meta.json')))
     ver = json.load(open(os.path.join(md, 'verify.json'))) if os.path.exists(os.path.join(md, 'verify.json')) else {}
     res = r.get('results', {})
-    caught = sorted({k.split('/')[0] for k, v in res.items() if v['detected']})
-    missed = sorted({k.split('/')[0] for k, v in res.items() if not v['detected']} - set(caught))
-    what = meta.get('summary', '')
+    per = {}
+    for k, v in res.items():
+        chk = k.split('/')[0]
+        per.setdefault(chk, [0, 0])
+        per[chk][1] += 1
+        per[chk][0] += 1 if v['detected'] else 0
+    caught = ['%s (%d/%d seeds)' % (c, a, b) if b > 1 else c for c, (a, b) in sorted(per.items()) if a > 0]
+    missed = [c for c, (a, b) in sorted(per.items()) if a == 0]
+    what = meta.get('summary', '') + (' — needs: ' + meta['needs'] if meta.get('needs') else '')
     rows.append('| %s | %s | %s | %s | %s | %s |' % (r['id'], r['property'], what.replace('|', '/'), ', '.join(caught) or '—', ', '.join(missed) or '—',
                                                 'yes' if ver.get('confirmed') else ('no: ' + str(ver.get('ctest_summary', 'not verified'))[:40])))
-print('| seeded change | property | what it does / what it needs | caught by (quick tier) | not caught by | suite passes + demo confirmed |')
+print('| seeded change | property | what it does — what it needs to show | caught by (quick tier; seeds 1 and 5 where two are given) | listed check that stays silent | repository suite passes 3x + demonstration confirmed |')
 print('|---|---|---|---|---|---|')
 print('\n'.join(rows))
